@@ -188,6 +188,7 @@ class Rig:
         self.on_invoke = None
         self.canary_ev = threading.Event()
         self.canary_seq = 0
+        self.canaries_seen = collections.deque(maxlen=64)
         self.mon = StepMonitor(_osclib)
         cap = _Capture(self.errs)
         for name in ('sc3.base.clock', 'sc3.base._oscinterface',
@@ -209,6 +210,8 @@ class Rig:
     # ---- observation --------------------------------------------------
     def _raw_hook(self, msg, time_, addr, port):
         if msg and msg[0] == CANARY:
+            if len(msg) > 1:
+                self.canaries_seen.append(msg[1])
             if len(msg) > 1 and msg[1] == self.canary_seq:
                 self.canary_ev.set()
             return
